@@ -224,5 +224,8 @@ func (iter *UnsavedFastIterator) Close() error {
 
 // Error implements store.Iterator
 func (iter *UnsavedFastIterator) Error() error {
-	return iter.err
+	if iter.err != nil {
+		return iter.err
+	}
+	return iter.fastIterator.Error()
 }
